@@ -176,6 +176,50 @@ func (e *appEnv) clientRequest(user, method, path string, body []byte, timeout t
 	return rid, ch
 }
 
+// clientRequestForm is clientRequest (GET, no body) with the request target in another legal form: "absolute-form"
+// (GET http://host/path HTTP/1.1, as sent to proxies) or "pct-letters" (unreserved characters of the path
+// percent-encoded - equivalent to the plain path for every URI-aware component).
+func (e *appEnv) clientRequestForm(user, path, form string, timeout time.Duration) (string, chan clientResult) {
+	if form == "" || form == "origin-form" {
+		return e.clientRequest(user, "GET", path, nil, timeout)
+	}
+	rid := fmt.Sprintf("rid-%d-%d", os.Getpid(), atomic.AddInt64(&e.reqN, 1))
+	ch := make(chan clientResult, 1)
+	target := path
+	switch form {
+	case "absolute-form":
+		target = "http://proxy.example" + path
+	case "pct-letters":
+		var b strings.Builder
+		first := true
+		for i := 0; i < len(path); i++ {
+			c := path[i]
+			isAlnum := (c >= 'a' && c <= 'z') || (c >= 'A' && c <= 'Z') || (c >= '0' && c <= '9')
+			if isAlnum && first {
+				fmt.Fprintf(&b, "%%%02X", c)
+				first = false
+				continue
+			}
+			if c == '/' {
+				first = true
+			}
+			b.WriteByte(c)
+		}
+		target = b.String()
+	}
+	go func() {
+		var raw bytes.Buffer
+		fmt.Fprintf(&raw, "GET %s HTTP/1.1\r\nHost: 127.0.0.1:%d\r\nX-Appengine-Request-Log-Id: %s\r\nX-Verif-Probe: %s\r\nConnection: close\r\n", target, e.defPort, rid, rid)
+		if user != "" {
+			fmt.Fprintf(&raw, "X-AppEngine-User-Email: %s\r\n", user)
+		}
+		raw.WriteString("\r\n")
+		r := hx.RawRoundTrip(fmt.Sprintf("127.0.0.1:%d", e.defPort), raw.Bytes(), "GET", timeout)
+		ch <- clientResult{r.Status, r.Body, r.Err, r.Header}
+	}()
+	return rid, ch
+}
+
 // storedUnder finds the backend a request ID was stored under (the kind of its entity is req:"<backend>").
 func (e *appEnv) storedUnder(rid string, wait time.Duration) string {
 	deadline := time.Now().Add(wait)
@@ -530,8 +574,10 @@ func appRouteDriver(a *Args) {
 		for q := 0; q < 3; q++ {
 			user := userMail([]string{"u1", "u2"}[rng.Intn(2)])
 			path := cases.Paths[rng.Intn(len(cases.Paths))]
+			// the request target in its usual form, in absolute-form and with percent-encoded letters: the same path
+			form := []string{"origin-form", "absolute-form", "pct-letters"}[(n+q)%3]
 			route := func() string {
-				rid, ch := e.clientRequest(user, "GET", path, nil, 700*time.Millisecond)
+				rid, ch := e.clientRequestForm(user, path, form, 700*time.Millisecond)
 				got := e.storedUnder(rid, 600*time.Millisecond)
 				if got == "" {
 					select {
@@ -549,6 +595,9 @@ func appRouteDriver(a *Args) {
 			got := route()
 			again := route()
 			sig := fmt.Sprintf("route:%d-backends/%s", nb, path)
+			if form != "origin-form" {
+				sig += ":" + form
+			}
 			hx.Emit("RouteCase", "sig", sig, "user", user, "path", chars(path), "got", got, "repeat", again, "liveness", live)
 			res.Case(fmt.Sprintf("route:%v|%s|%s", backendsEvent(bs), user, path), map[string]interface{}{"backends": bs, "liveness": live, "user": user, "path": path, "routed_to": got})
 		}
@@ -1251,4 +1300,87 @@ func appRelayStress(e *appEnv, res *hx.Result, bs []appBackend) {
 	ex, _ := example.Load().(string)
 	hx.Emit("RelayStress", "requests", total, "wrong", wrong, "unanswered", unanswered, "example", ex)
 	res.Case("stress", map[string]interface{}{"requests": total, "wrong": wrong, "unanswered": unanswered})
+}
+
+// ---------------------------------------------------------------------------------------------
+// the response cache of the App Engine proxy (AppCache.tla): sequences of exchanges on one URL
+// ---------------------------------------------------------------------------------------------
+
+func init() { Drivers["appcache"] = appCacheDriver }
+
+type cacheOp struct {
+	M  string `json:"m"`
+	U  string `json:"u"`
+	CC bool   `json:"cc"`
+}
+
+func appCacheDriver(a *Args) {
+	res := a.Res
+	var cases struct {
+		Sequences [][]cacheOp `json:"sequences"`
+	}
+	b, err := os.ReadFile(a.Cases)
+	if err != nil || json.Unmarshal(b, &cases) != nil {
+		res.Bad("cannot read cases %q: %v", a.Cases, err)
+		return
+	}
+	e := startAppEnv(res)
+	if e == nil {
+		return
+	}
+	defer e.stop()
+	users := map[string]string{"u1": "cache-u1@example.com", "u2": "cache-u2@example.com"}
+	bk := appBackend{ID: "cache-1", EndUser: "allUsers", BackendUser: "agent-c@example.com", Prefixes: []string{"/"}, live: true}
+	if st := e.addBackend(bk); st != 200 {
+		res.Bad("add backend: %d", st)
+		return
+	}
+	for si, seq := range cases.Sequences {
+		e.setLastSeen(bk.ID, time.Now())
+		url := fmt.Sprintf("/cache/doc-%d?v=%d", si, si%3)
+		var shape []string
+		for _, op := range seq {
+			shape = append(shape, fmt.Sprintf("%s/%s/cc=%v", op.M, op.U, op.CC))
+		}
+		sig := "cache:" + strings.Join(shape, ",")
+		hx.Reset(fmt.Sprintf("appcache-%d", si), sig)
+		bodies := map[int][]byte{}
+		for k, op := range seq {
+			own := si*10 + k + 1
+			bodies[own] = []byte(fmt.Sprintf("answer-%d-to-%s", own, op.M))
+			var reqBody []byte
+			if op.M == "POST" {
+				reqBody = []byte("posted")
+			}
+			rid, ch := e.clientRequest(users[op.U], op.M, url, reqBody, 10*time.Second)
+			// the harness is the agent: a request that is stored is answered with this exchange's own body
+			reached := e.storedUnder(rid, 250*time.Millisecond) != ""
+			if reached {
+				cc := ""
+				if op.CC {
+					cc = "Cache-Control: private, max-age=60\r\n"
+				}
+				raw := fmt.Sprintf("HTTP/1.1 200 OK\r\nContent-Length: %d\r\nX-Own: %d\r\n%s\r\n%s", len(bodies[own]), own, cc, bodies[own])
+				e.do(e.agPort, "POST", "/agent/response", agentHdr(bk.BackendUser, bk.ID, rid), []byte(raw), 10*time.Second)
+			}
+			var cr clientResult
+			answered := false
+			select {
+			case cr = <-ch:
+				answered = cr.err == nil
+			case <-time.After(12 * time.Second):
+			}
+			got := 0
+			if answered {
+				// whose answer is it: by header (present for HEAD too) and, where there is a body, by the body
+				fmt.Sscanf(cr.hdr.Get("X-Own"), "%d", &got)
+				if op.M != "HEAD" && !bytes.Equal(cr.body, bodies[got]) {
+					got = -1 // a body that belongs to no exchange of this sequence (or to another one than the header says)
+				}
+			}
+			hx.Emit("CacheStep", "method", op.M, "user", op.U, "url", url, "cc", op.CC, "reached", reached, "own", own, "got", got,
+				"status", cr.status, "answered", answered)
+		}
+		res.Case(sig, map[string]interface{}{"sequence": shape})
+	}
 }
